@@ -28,7 +28,8 @@ var hostilePool = func() []hx.Val {
 		hx.Str("2020-01-02T03:04:05Z"), hx.Str("2020-01-02T03:04:05.5+02:00"), hx.Str("notatime"), hx.Str("RED"), hx.Str("BOGUS"), hx.Str("NaN"), hx.Str("Inf"), hx.Str("1e999"),
 		hx.Bool(true), hx.Bool(false),
 		hx.Sym("RED"), hx.Sym("BOGUS"),
-		hx.Time(time.Date(2021, 5, 6, 7, 8, 9, 10, time.UTC)),
+		hx.Time(time.Date(2021, 5, 6, 7, 8, 9, 10, time.UTC)), hx.Time(time.Date(10000, 1, 1, 0, 0, 0, 0, time.UTC)), hx.Time(time.Date(-1, 12, 31, 23, 59, 59, 0, time.UTC)),
+		hx.Time(time.Date(9999, 12, 31, 23, 59, 59, 999999999, time.UTC)), hx.Time(time.Date(0, 1, 1, 0, 0, 0, 0, time.UTC)),
 		{K: "bytes", S: "xyz"},
 		hx.Map(hx.KV{Key: "a", V: hx.I64(1)}), hx.List(hx.I64(1)),
 		{K: "nilptr"}, {K: "struct"},
